@@ -66,3 +66,44 @@ Example C18_small_sequences :
           (flat_map (fun a => [[a]] ++ flat_map (fun b => [[a; b]] ++ map (fun c => [a; b; c]) non_eof_kinds) non_eof_kinds) non_eof_kinds)
   = true.
 Proof. vm_compute. reflexivity. Qed.
+
+Require Import Matcher Builder Pipeline PipelineFacts Machine MachineEq MachineInst.
+
+(* The token queue is an implementation detail: in stop-at-first-error mode Parser.parse -- with its queue, its
+   look-ahead methods that push tokens back, its scanner, fuel and counters -- computes exactly the queue-free
+   deterministic machine of Machine.v, which walks the list of pending tokens, lets a look-ahead scan that list in place,
+   and tries the tests of the current state in order on the head token: same outcome (document builder state, or the
+   first error), same matcher state, same builder state.  Generic theorem MachineEq.parse_machine (for any matcher and
+   builder that satisfy the hypotheses of the delivery theorem), instantiated for the real pipeline over the regenerated
+   table; with C14_stop_first / C14_stop_accepts it also describes the collecting mode's accepted documents and first error. *)
+Theorem C18_queue_free_machine : forall m b src, wf_ms m ->
+  pm_rel (parse_tokens true (scan src) m b) (machine_source m b src).
+Proof. exact source_machine. Qed.
+Print Assumptions C18_queue_free_machine.
+
+From Coq Require Import String.
+Example C18_queue_free_machine_sample :
+  match new_matcher Dialects.dialects (PyStr.s2l "en") with
+  | Some m =>
+    match machine_source m (new_builder 0) (PyStr.s2l "Feature: f
+  @a
+  # c
+
+  @b
+  Scenario Outline: o
+    Given <x>
+    @c
+
+    Examples:
+      | x |
+      | 1 |
+"), machine_source m (new_builder 0) (PyStr.s2l "Feature: f
+  @a
+  oops
+") with
+    | MoOk _ _ b, MoRaise e _ _ => builder_result b <> None /\ e_kind e = EUnexpectedToken
+    | _, _ => False
+    end
+  | None => False
+  end.
+Proof. vm_compute. split; [discriminate | reflexivity]. Qed.
